@@ -146,5 +146,80 @@ func genC03(c *Ctx) {
 			}
 		}
 	}
+	c03Timeline(c)
 	_ = app.DefaultConfig
+}
+
+// c03Timeline: "the audio SegmentTimeline in the MPD lists exactly these start times and durations".  The MPD is
+// requested with SegmentTimeline addressing ($Time$ and $Number$) at instants over several loops; the op goes to the
+// model (correspondence) and the monitor compares every audio entry with the frame-grid images of the video entry at
+// the same position of the same document.
+func c03Timeline(c *Ctx) {
+	c.emitMpdDefs()
+	for ai := range vAssets {
+		a := &vAssets[ai]
+		ref := refRepOf(a)
+		if ref == nil || ref.ContentType != "video" || len(a.MPDs) == 0 {
+			continue
+		}
+		name := a.MPDs[0]
+		for _, cf := range []cfgVar{mkCfg(0, 60, 0, 0, "tlt"), mkCfg(61, 30, 3, 0, "tln"), mkCfg(0, 20, 0, 1500, "tlt")} {
+			for _, now := range pickInstants(c, a, cf, c.N(5, 30)) {
+				line := fmt.Sprintf("mpd %s %s %s %d", a.AssetPath, cf.s, name, now)
+				out := c.Emit(line, true)
+				if !strings.HasPrefix(out, "dynamic") {
+					continue
+				}
+				res := doLive("GET", mpdURL(a.AssetPath, cf.s, name, strconv.FormatInt(now, 10)))
+				m, err := parseMPD(res.body)
+				if err != nil || len(m.Periods) != 1 {
+					continue
+				}
+				var vtl [][2]uint64
+				var vT uint64
+				for i := range m.Periods[0].Sets {
+					as := &m.Periods[0].Sets[i]
+					if asContentType(as) == "video" && as.SegmentTemplate != nil && len(as.Representations) > 0 && as.Representations[0].ID == ref.ID {
+						vtl = expandTL(as.SegmentTemplate)
+						if as.SegmentTemplate.Timescale != nil {
+							vT = *as.SegmentTemplate.Timescale
+						}
+					}
+				}
+				if len(vtl) == 0 || vT == 0 {
+					continue
+				}
+				for i := range m.Periods[0].Sets {
+					as := &m.Periods[0].Sets[i]
+					if asContentType(as) != "audio" || as.SegmentTemplate == nil || len(as.Representations) == 0 {
+						continue
+					}
+					var rep *app.VerifRep
+					for ri := range a.Reps {
+						if a.Reps[ri].ID == as.Representations[0].ID {
+							rep = &a.Reps[ri]
+						}
+					}
+					if rep == nil || rep.PreEncrypted || rep.ConstSampleDur == 0 {
+						continue
+					}
+					fd, audT := uint64(rep.ConstSampleDur), uint64(rep.MediaTimescale)
+					atl := expandTL(as.SegmentTemplate)
+					c.Count("audio-timelines-compared")
+					if len(atl) != len(vtl) {
+						c.Violate("audio-timeline-length", fmt.Sprintf("audio timeline has %d entries, video timeline %d", len(atl), len(vtl)), []string{line}, nil)
+						continue
+					}
+					for j := range vtl {
+						ws := ceilFrame(vtl[j][0], vT, fd, audT)
+						we := ceilFrame(vtl[j][0]+vtl[j][1], vT, fd, audT)
+						if atl[j][0] != ws || atl[j][1] != we-ws {
+							c.Violate("audio-timeline-entry", fmt.Sprintf("entry %d: audio (t=%d,d=%d), video (t=%d,d=%d)@%d gives (t=%d,d=%d)", j, atl[j][0], atl[j][1], vtl[j][0], vtl[j][1], vT, ws, we-ws), []string{line}, nil)
+							break
+						}
+					}
+				}
+			}
+		}
+	}
 }
